@@ -23,12 +23,6 @@ namespace Pcore.Lat
 section
 variable (cfg : Cfg) (sfh : Bool)
 
-/-- `t.PType()` of a type used as a value is `Type[t]` — except that the two constrained String types embed `stringType` and
-    inherit its `PType()`, whose receiver is the embedded unconstrained String: `String['a'].PType()` is `Type[String]`. -/
-def typeOfType : Ty → Ty
-  | .strVal _ | .strSz _ => .str
-  | t => t
-
 mutual
 def ptype : Val → Ty
   | .undef => .undef
@@ -46,7 +40,7 @@ def ptype : Val → Ty
   | .hash ((k, v) :: es) =>
       .hash (ptypeFoldK (ptype k) es) (ptypeFoldV (ptype v) es) (Rng.exact ((es.length + 1 : Nat) : Int))
   | .sensitive v => .sensitive (ptype v)
-  | .typ t => .typ (typeOfType t)
+  | .typ t => .typ t
   | .obj p => .object (some p)
 termination_by v => v.w
 decreasing_by all_goals (simp_wf; simp only [Val.w, Val.wl, Val.we] at *; omega)
